@@ -4,6 +4,8 @@ import (
 	"fmt"
 	"go/token"
 	"go/types"
+	"sort"
+	"strings"
 
 	"golang.org/x/tools/go/ssa"
 )
@@ -726,6 +728,37 @@ func (fc *FnCtx) assumeNoSentinel(st *State, e Term) {
 	for _, o := range fc.eng.errStructs {
 		fc.assume(st, tEq(app(SInt, "as_"+sanitize(o), e), intLit(0)))
 	}
+}
+
+// assumeForeignError: an error produced by code outside the repository's packages (a user-supplied
+// callback, a context cause chosen by the caller) cannot be, or wrap, an UNEXPORTED sentinel error of the
+// repository: there is no way to name it. `except` lists sentinel constants that the repository itself
+// hands out (e.g. as a context cause).
+func (fc *FnCtx) assumeForeignError(st *State, e Term, except ...string) {
+	fc.declareSentinels()
+	var keys []string
+	for k := range fc.eng.sentinelOf {
+		keys = append(keys, k)
+	}
+	sort.Strings(keys)
+	for _, k := range keys {
+		c := fc.eng.sentinelOf[k]
+		name := k[strings.LastIndex(k, ".")+1:]
+		if name == "" || !(name[0] >= 'a' && name[0] <= 'z') {
+			continue
+		}
+		skip := false
+		for _, x := range except {
+			if x == name {
+				skip = true
+			}
+		}
+		if skip {
+			continue
+		}
+		fc.assume(st, tAnd(tNot(tEq(e, T(SErr, c))), tNot(app(SBool, "errIs", e, T(SErr, c)))))
+	}
+	fc.assumptions["A-foreign-errors: errors returned by user callbacks / context causes never are or wrap an unexported sentinel error of the repository"] = true
 }
 
 func (fc *FnCtx) execConvert(fr *Frame, st *State, x *ssa.Convert) Val {
